@@ -34,6 +34,7 @@ import json
 from typing import Any
 from typing import Optional
 
+from liquid import CachingLoaderMixin
 from liquid import Undefined
 from liquid.exceptions import TemplateNotFoundError
 from liquid.loader import BaseLoader
@@ -70,11 +71,20 @@ class ProgLoader(BaseLoader):
         return TemplateSource(text, template_name, None, self.matter.get(template_name))
 
 
+class CachingProgLoader(CachingLoaderMixin, ProgLoader):
+    """Caching variant, built the way docs/loading_templates.md ("Caching mixin") shows."""
+
+    def __init__(self) -> None:
+        super().__init__(auto_reload=True, namespace_key="", capacity=300)
+        ProgLoader.__init__(self)
+
+
 def undef_text(kind: str) -> str:
     return MARK if kind == "marker" else ""
 
 
 _ENVS: dict[Any, Any] = {}
+_BASE_LOADERS: dict[int, Any] = {}
 
 
 def scope_env(undef: str, names: tuple[str, str], evals: tuple[int, int]) -> Any:
@@ -113,7 +123,12 @@ CONFIGS: dict[str, list[int]] = {
 }
 NAME_SETS: dict[str, tuple[str, str]] = {
     "vw": ("v", "w"), "now": ("now", "w"), "today": ("today", "w"), "loop": ("forloop", "tablerowloop"),
+    # variables named like the special path properties (a name is a name: docs/variables_and_drops.md)
+    "size": ("size", "w"), "first": ("first", "w"), "last": ("last", "w"),
 }
+# load mode -> the get_template requests made for the same name BEFORE the one whose template is rendered
+# ("decoy" = other template globals for both names, "none" = no globals argument)
+CACHED_PRE: dict[str, tuple[str, ...]] = {"cached1": ("decoy",), "cached2": ("decoy", "none")}
 
 
 def merge_apis(per_api: dict[str, list[tuple[str, str, str, str]]]) -> list[tuple[str, str, str, str, str]]:
@@ -150,12 +165,38 @@ def eval_scope(c: M.Compiled, names: tuple[str, str], mv: int, undef: str, load:
     ut = undef_text(undef)
     evals = tuple((2 if nil_layer == (j, "E") else 1) if masks[j] >> 3 & 1 else 0 for j in (0, 1))
     env = scope_env(undef, names, evals)  # type: ignore[arg-type]
-    loader = env.loader
+    loader = base_loader = _BASE_LOADERS.setdefault(id(env), env.loader)
+    env.loader = loader
     loader.sources = dict(c.partials)
     loader.matter = {}
     tkey = (masks[0] >> 1, masks[1] >> 1, undef, load, nil_layer if nil_layer and nil_layer[1] != "R" else None)
-    t = cache.get(tkey) if cache is not None else None
-    if t is None:
+    t = cache.get(tkey) if cache is not None and load not in CACHED_PRE else None
+    per_api_t: dict[str, Any] = {}
+    if load in CACHED_PRE:
+        # a caching loader, asked for the same name several times with different template globals: the template
+        # globals layer is what the LAST request passed (docs/render_context.md "Template globals"; caching
+        # loaders only "avoid parsing the same source text multiple times", docs/loading_templates.md)
+        decoy = {n: f"X{n}" for n in names}
+        for api in ("sync", "async"):
+            ld = CachingProgLoader()
+            ld.sources = {**c.partials, "main": c.source}
+            ld.matter = {"main": dict(layers["M"])}
+            env.loader = ld
+
+            def request(g: Any, api: str = api) -> Any:
+                kw = {} if g is None else {"globals": g}
+                if api == "sync":
+                    return env.get_template("main", **kw)
+                return util.run_coro(env.get_template_async("main", **kw))
+
+            def load_seq() -> Any:
+                for pre in CACHED_PRE[load]:
+                    request(dict(decoy) if pre == "decoy" else None)
+                return request(dict(layers["T"]))
+
+            per_api_t[api] = (util.outcome(load_seq), ld)
+        t = per_api_t["sync"][0]
+    elif t is None:
         if load == "loader":
             loader.sources["main"] = c.source
             loader.matter["main"] = dict(layers["M"])
@@ -169,6 +210,8 @@ def eval_scope(c: M.Compiled, names: tuple[str, str], mv: int, undef: str, load:
     stats: dict[str, int] = {}
     excluded = 0
     for api in ("sync", "async"):
+        if per_api_t:
+            t, env.loader = per_api_t[api]
         if not t.ok:
             o = t
         elif api == "sync":
@@ -192,6 +235,8 @@ def eval_scope(c: M.Compiled, names: tuple[str, str], mv: int, undef: str, load:
         what = (f"{c.source} partials={c.partials} render_args={layers['R']} matter={layers['M']} "
                 f"template_globals={layers['T']} env_globals={layers['E']} -> {text} [{api}]")
         viols.append((sig, what))
+    if per_api_t:
+        env.loader = base_loader
     info = {"clauses": M.clauses_of(expected), "stats": stats, "masks": masks, "excluded": excluded}
     return viols, info
 
@@ -206,7 +251,11 @@ def scope_case(alpha: str, forest: M.Forest, nameset: str, mv: int, undef: str, 
 
 
 def family_of(nameset: str) -> str:
-    return "scope" if nameset == "vw" else ("builtin" if nameset in ("now", "today") else "loopvar")
+    if nameset == "vw":
+        return "scope"
+    if nameset in ("now", "today"):
+        return "builtin"
+    return "loopvar" if nameset == "loop" else "special-name"
 
 
 _CROSSING: dict[tuple[str, int], list[M.Forest]] = {}
@@ -452,7 +501,11 @@ def plan(tier: str) -> list[tuple[int, tuple[Any, ...]]]:
     for n in (0, 1, 2):
         scope("two", n, "vw", "all16", "marker", "string", 150)
         scope("two", n, "vw", "all16", "marker", "loader", 150)
-        scope("two", n, "vw", "all16", "default", "string", 150)
+        scope("two", n, "vw", "four" if quick else "all16", "default", "string", 150)
+        scope("two", n, "vw", "all16", "marker", "cached1", 150)
+        scope("two", n, "vw", "four" if quick else "all16", "marker", "cached2", 150)
+        for ns in ("size", "first", "last"):
+            scope("onef", n, ns, "all16", "marker", "string", 150)
         for ns in ("now", "today"):
             scope("onef", n, ns, "all16", "marker", "string", 150)
         scope("two", n, "loop", "all16", "marker", "string", 150)
@@ -500,12 +553,15 @@ class C14(Check):
         "with ops inside = 14 op kinds) with a probe of both names before/inside/after every op, rendered (sync "
         "and async) under independent subsets of the four global layers. quick = all forests of <=2 ops over "
         "{v,w} (26 symbols) x 16 layer subsets x {marker Undefined via from_string, marker via a loader "
-        "supplying matter, default Undefined}; all forests of 3 ops over v (13 kinds) x 16 subsets; all forests "
+        "supplying matter, marker via a caching loader (docs CachingLoaderMixin) asked for the same name first "
+        "with other template globals [and then with none: 4 subsets] so that the rendered template's globals "
+        "are those of the LAST request, default Undefined (4 subsets)}; all forests of 3 ops over v (13 kinds) x 16 subsets; all forests "
         "of 3 ops over {v,w} x 2 subsets (none / render argument); all forests of 4 ops over v on the 9-kind "
         "core alphabet (assign, increment, for, tablerow, with, include kwarg, plain include, macro, capture "
         "block) x 2 subsets; all forests of <=4 ops over {assign, break, continue, for, with, if} (scopes left "
         "through an interrupt); the <=2-op forests again over the names now / today (user binding shadows the "
-        "built-in, built-in shadows a counter) and forloop / tablerowloop; every forest of <=4 ops over {assign, "
+        "built-in, built-in shadows a counter), forloop / tablerowloop, and size / first / last (a variable named like "
+        "a special path property is an ordinary name: unbound or after its block it is undefined); every forest of <=4 ops over {assign, "
         "break, continue, for, tablerow, with, include..with, include kwarg, plain include} in which a break / "
         "continue reaches its loop through an included partial or sits in a tablerow (3006 forests) x 2 subsets "
         "(compared when the interrupt ended the iteration as modelled, else excluded); nil bindings: on every "
@@ -545,7 +601,8 @@ class C14(Check):
     def bounds(self, tier: str) -> dict[str, Any]:
         q = tier == "quick"
         return {
-            "ops_two_names": "all forests of <=2 ops (26 symbols) x 16 layer subsets x 3 (undefined kind, load mode); "
+            "ops_two_names": "all forests of <=2 ops (26 symbols) x 16 layer subsets x {from_string, loader with matter, caching "
+            "loader after a request with other globals} + 4 subsets x {default Undefined, caching loader after two requests}; "
             "all forests of 3 ops x " + ("2 subsets" if q else "16 subsets (+4 subsets with default Undefined via loader); "
                                          "all forests of 4 ops on the 9-kind core alphabet x 2 subsets"),
             "ops_one_name": ("all forests of 3 ops (13 kinds) x 16 subsets; all forests of 4 ops on the 9-kind core "
@@ -555,7 +612,8 @@ class C14(Check):
             "nil_bindings": "forests of <=2 ops x 16 subsets x (each nil-capable op, all ops, each populated layer of v / w); "
             + ("forests of 3 ops over v x 1 subset x (each op, all ops)" if q else
                "forests of 3 ops over {v,w} x 2 subsets x (each op, all ops, each layer)"),
-            "builtin_and_loop_names": "all forests of <=2 ops x 16 subsets over (now,w), (today,w), (forloop,tablerowloop)"
+            "builtin_and_loop_names": "all forests of <=2 ops x 16 subsets over (now,w), (today,w), (forloop,tablerowloop), "
+            "(size,w), (first,w), (last,w)"
             + ("" if q else "; 3 ops x 4 subsets"),
             "paths": f"root + 1..{3 if q else 4} segments, 32 segment forms, 10 roots, <=1 segment after the first missing position, 4 flag settings (marker Undefined) "
             "+ 2 flag settings (default Undefined)",
